@@ -253,7 +253,16 @@ func genMalformed(r *lib.Rng) ([]byte, string) {
 	case 2:
 		return valid[:r.Range(1, len(valid)-1)], "malformed/truncated"
 	case 3:
-		return append(append([]byte{}, valid...), []byte(` trailing`)...), "malformed/trailing-garbage"
+		// a complete command followed by junk: the whole message is not JSON and must not be executed
+		cmdv := r.Pick([]string{
+			`{"verb":"delete","what":"stream","which":"all"}`,
+			`{"verb":"delete","what":"destination","which":"all"}`,
+			`{"verb":"add","what":"stream","rule":{"stream":"stream/junk","feeds":["video0"]}}`,
+			`{"verb":"add","what":"destination","rule":{"id":"junk","stream":"video0","destination":"ws://127.0.0.1:9/j"}}`,
+			`{"verb":"delete","what":"destination","which":"00"}`,
+			string(valid)})
+		junk := r.Pick([]string{"}", "]", ",", " trailing", "x", `{"verb":"list","what":"str`, `{"verb":"list","what":"stream","which":"all"}`, "\x00", `"`, ":1"})
+		return []byte(cmdv + junk), "malformed/valid-command-then-junk"
 	case 4:
 		return []byte(r.Pick([]string{"null", "[]", `"add"`, "123", "true", "{}", "[{}]"})), "malformed/bare-value"
 	case 5:
@@ -333,13 +342,61 @@ func genHTTP(r *lib.Rng) Item {
 	return it
 }
 
+// genScenario: a stream rule with feeds, a destination on that stream (its client joins the stream, the
+// aggregator gives it sub-clients), the rule again in another shape (feeds absent / null / [] / other), then
+// something that tears the sub-clients down once more
+func genScenario(r *lib.Rng) []Item {
+	cmd := func(s, fam string) Item {
+		return Item{Kind: "cmd", Msg: []byte(s), Text: fmt.Sprintf("%q", s), Family: fam}
+	}
+	name := r.Pick([]string{"stream/large", "stream/sc", "stream/a-b"})
+	id := r.Pick([]string{"sc0", "00", "d-1"})
+	rule := func(feeds string) string {
+		if feeds == "" {
+			return `{"verb":"add","what":"stream","rule":{"stream":"` + name + `"}}`
+		}
+		return `{"verb":"add","what":"stream","rule":{"stream":"` + name + `","feeds":` + feeds + `}}`
+	}
+	feedsVariants := []string{"", "null", "[]", `["video0"]`, `["audio0","data"]`}
+	dest := `{"verb":"add","what":"destination","rule":{"id":"` + id + `","stream":"` + name + `","destination":"ws://127.0.0.1:9/in/sc"}}`
+	items := []Item{cmd(rule(`["video0","audio0"]`), "add/stream/scenario"), cmd(dest, "add/destination/scenario")}
+	if r.Bool() { // the destination may also come first
+		items[0], items[1] = items[1], items[0]
+	}
+	n := r.Range(1, 3)
+	for i := 0; i < n; i++ {
+		items = append(items, cmd(rule(feedsVariants[r.Intn(len(feedsVariants))]), "add/stream/scenario-feeds-variant"))
+	}
+	closers := []string{
+		`{"verb":"delete","what":"stream","which":"` + name + `"}`,
+		`{"verb":"delete","what":"stream","which":"all"}`,
+		`{"verb":"delete","what":"destination","which":"` + id + `"}`,
+		`{"verb":"delete","what":"destination","which":"all"}`,
+		rule(`["video0"]`),
+		dest,
+	}
+	m := r.Range(1, 3)
+	for i := 0; i < m; i++ {
+		items = append(items, cmd(closers[r.Intn(len(closers))], "scenario-teardown"))
+	}
+	items = append(items, cmd(`{"verb":"list","what":"stream","which":"all"}`, "list/stream/which-all"))
+	return items
+}
+
 func genSession(r *lib.Rng, nCmd, nHTTP int, mode string) Session {
 	s := Session{Mode: mode}
 	if r.Chance(3, 4) {
 		s.API = "ws://127.0.0.1:9/ctl/api"
 	}
 	k := nCmd + nHTTP
+	scenarioAt := -1
+	if r.Chance(1, 2) {
+		scenarioAt = r.Intn(k)
+	}
 	for i := 0; i < k; i++ {
+		if i == scenarioAt {
+			s.Items = append(s.Items, genScenario(r)...)
+		}
 		if nHTTP > 0 && (r.Intn(k-i) < nHTTP) && mode != "direct" {
 			s.Items = append(s.Items, genHTTP(r))
 			nHTTP--
@@ -388,6 +445,41 @@ func corpus() []Session {
 				cmd(`{"verb":"delete","what":"destination","which":"all"}`, "delete/destination/which-all"),
 				cmd(`{"verb":"list","what":"destination","which":"all"}`, "list/destination/which-all"),
 			}})
+	}
+	// a complete command followed by junk is not JSON: it must be refused and change nothing
+	for _, mode := range []string{"topic", "direct"} {
+		items := []Item{
+			cmd(`{"verb":"add","what":"stream","rule":{"stream":"stream/large","feeds":["video0","audio0"]}}`, "add/stream"),
+			cmd(`{"verb":"add","what":"destination","rule":{"id":"j0","stream":"stream/large","destination":"ws://127.0.0.1:9/in/j"}}`, "add/destination"),
+		}
+		for _, junk := range []string{"}", "]", ",", " x", `{"verb":"list","what":"str`, `{"verb":"list","what":"stream","which":"all"}`, `"`} {
+			items = append(items,
+				cmd(`{"verb":"delete","what":"stream","which":"all"}`+junk, "malformed/valid-command-then-junk"),
+				cmd(`{"verb":"delete","what":"destination","which":"j0"}`+junk, "malformed/valid-command-then-junk"),
+				cmd(`{"verb":"add","what":"stream","rule":{"stream":"stream/j","feeds":["a"]}}`+junk, "malformed/valid-command-then-junk"))
+		}
+		items = append(items, cmd(`{"verb":"list","what":"stream","which":"all"}`, "list/stream/which-all"), cmd(`{"verb":"list","what":"destination","which":"all"}`, "list/destination/which-all"))
+		out = append(out, Session{API: api, Mode: mode, Items: items})
+	}
+	// stream rule with feeds, a destination on the stream, the rule again WITHOUT feeds (absent, null, []),
+	// then every way of tearing the stream's sub-clients down again
+	for _, variant := range []string{`{"stream":"stream/large"}`, `{"stream":"stream/large","feeds":null}`, `{"stream":"stream/large","feeds":[]}`} {
+		for _, closer := range []string{
+			`{"verb":"delete","what":"stream","which":"stream/large"}`,
+			`{"verb":"delete","what":"stream","which":"all"}`,
+			`{"verb":"delete","what":"destination","which":"s0"}`,
+			`{"verb":"add","what":"stream","rule":{"stream":"stream/large","feeds":["video0"]}}`,
+		} {
+			out = append(out, Session{API: api, Mode: "topic", Items: []Item{
+				cmd(`{"verb":"add","what":"stream","rule":{"stream":"stream/large","feeds":["video0","audio0"]}}`, "add/stream/scenario"),
+				cmd(`{"verb":"add","what":"destination","rule":{"id":"s0","stream":"stream/large","destination":"ws://127.0.0.1:9/in/s"}}`, "add/destination/scenario"),
+				cmd(`{"verb":"add","what":"stream","rule":`+variant+`}`, "add/stream/scenario-feeds-variant"),
+				cmd(closer, "scenario-teardown"),
+				cmd(`{"verb":"delete","what":"stream","which":"all"}`, "scenario-teardown"),
+				cmd(`{"verb":"delete","what":"destination","which":"all"}`, "scenario-teardown"),
+				cmd(`{"verb":"healthcheck"}`, "healthcheck/"),
+			}})
+		}
 	}
 	// reserved words in other spellings: none of them may remove apiRule, whatever else they do
 	for _, mode := range []string{"topic", "direct"} {
